@@ -1217,7 +1217,8 @@ def gen_read_entries():
     for fn, lean, nparams, extra, step in [
             ("shopify_function_input_get_at_index", "getAtIndexGen", 2, "(i : Nat)", "(c.idxStep h)"),
             ("shopify_function_input_get_obj_key_at_index", "getKeyAtIndexGen", 2, "(i : Nat)", "PStep.key"),
-            ("shopify_function_input_get_obj_prop", "getObjPropGen", 3, "(q : Bytes)", "PStep.val")]:
+            ("shopify_function_input_get_obj_prop", "getObjPropGen", 3, "(q : Bytes)", "PStep.val"),
+            ("shopify_function_input_get_interned_obj_prop", "getInternedObjPropGen", 2, "(q : Bytes)", "PStep.val")]:
         try:
             ps, b = fn_parts(src, fn, r"\w+")
         except ExtractError:
@@ -1231,6 +1232,9 @@ def gen_read_entries():
         is_prop = fn.endswith("obj_prop")
         arg = "query" if is_prop else "P1"
         pre = "let query = unsafe { std::slice::from_raw_parts(P1 as *const u8, P2) }; " if is_prop else ""
+        if "interned" in fn:
+            # the name comes from the interner (the model consults it once the scope is accepted)
+            pre = "let query = context.string_interner.get(P1); "
         res_opt = "Ok(Some(value)) => value.encode().to_bits(), Ok(None) => NanBox::null().to_bits(), Err(e) => NanBox::error(e).to_bits(),"
         res_plain = "Ok(value) => value.encode().to_bits(), Err(e) => NanBox::error(e).to_bits(),"
         found = None
